@@ -337,9 +337,87 @@ let c14 file =
     | "W" :: _ | "S" :: _ | "setup" :: _ -> print_endline line
     | _ -> ()) (read_lines file)
 
+(* ---------------------------------------------------------------- C15 *)
+(* floating-point glue (not extracted): the float adjustment of the quality,
+   the long->float store into hi->req and the division by the channel count are
+   done here in IEEE arithmetic exactly as the C code does; every comparison
+   and every decision is taken by the extracted model on exact dyadic values. *)
+let rec pos_of_i64 (i : int64) =
+  if i = 1L then XH
+  else if Int64.logand i 1L = 1L then XI (pos_of_i64 (Int64.shift_right_logical i 1))
+  else XO (pos_of_i64 (Int64.shift_right_logical i 1))
+let z_of_u64 (i : int64) = if i = 0L then Z0 else Zpos (pos_of_i64 i)
+let d64_of_float (x : float) = decode_b64 (z_of_u64 (Int64.bits_of_float x))
+let round32 (x : float) = Int32.float_of_bits (Int32.bits_of_float x)
+let c15 file =
+  let tbl = List.map mk_template setup_templates in
+  let s = ref s_init and req = ref 0.0 and dead = ref false in
+  let zs x = zi (int_of_string x) in
+  let show op rc =
+    let st = !s in
+    if st.s_cleared then Printf.printf "st %s rc=%d cleared=1\n" op (iz rc)
+    else begin
+      let (t, is) = match st.s_tmpl with Some (a, b) -> (iz a, iz b) | None -> (-1, -1) in
+      let (b0, b1) = match st.s_blocks with Some (a, b) when st.s_stone -> (iz a, iz b) | _ -> (0, 0) in
+      Printf.printf "st %s rc=%d cleared=0 tmpl=%d is=%d ch=%d rate=%d man=%d cpl=%d stone=%d min=%d av=%d max=%d res=%d b0=%d b1=%d\n"
+        op (iz rc) t is (iz st.s_ch) (iz st.s_rate) (iz st.s_managed) (iz st.s_coupling) (if st.s_stone then 1 else 0)
+        (iz st.s_min) (iz st.s_av) (iz st.s_max) (iz st.s_res) b0 b1
+    end in
+  let rec i64_of_pos = function XH -> 1L | XO p -> Int64.shift_left (i64_of_pos p) 1 | XI p -> Int64.logor (Int64.shift_left (i64_of_pos p) 1) 1L in
+  let float_of_zbits = function Z0 -> 0.0 | Zpos p -> Int64.float_of_bits (i64_of_pos p) | Zneg _ -> nan in
+  let maps = Array.of_list (List.map (fun (((((((_, _), _), _), q), r), _), _) ->
+    (Array.of_list (List.map float_of_zbits q), Array.of_list (List.map float_of_zbits r))) setup_templates) in
+  (* (int)(j+del) as the C code computes it: float low/high/del, float sum *)
+  let bump_for (rq : float) (bitrate : bool) : z -> z -> bool = fun zi_ zj ->
+    let i = iz zi_ and j = iz zj in
+    let (q, r) = maps.(i) in let mp = if bitrate then r else q in
+    let low = round32 mp.(j) and high = round32 mp.(j + 1) in
+    let del = round32 ((rq -. low) /. (high -. low)) in
+    let is0 = truncate (round32 (float_of_int j +. del)) in
+    if is0 = j then false else if is0 = j + 1 then true
+    else (Printf.printf "glue-assumption-violated (int)(j+del)=%d for j=%d\n" is0 j; false) in
+  let apply_b b opname o = let (s', rc) = sstep b tbl !s o in s := s'; show opname rc; if s'.s_cleared then dead := true in
+  let apply opname o = apply_b (fun _ _ -> false) opname o in
+  let quality qb =
+    let q = Int32.float_of_bits (Int32.of_string ("0u" ^ qb)) in
+    let q = round32 (q +. 0.0000001) in
+    if q >= 1.0 then round32 0.9999 else q in
+  let f64 b = Int64.float_of_bits (Int64.of_string ("0u" ^ b)) in
+  List.iter (fun line ->
+    match split line with
+    | "case" :: k :: _ -> s := s_init; req := 0.0; dead := false; Printf.printf "case %s\n" k
+    | ["end"] -> ()
+    | op :: _ when !dead -> Printf.printf "skip %s\n" op
+    | [("V" | "IV") as op; ch; rate; qb] ->
+        let q = quality qb in
+        if int_of_string rate > 0 then req := q;
+        apply_b (bump_for q false) op (if op = "V" then OVbr (zs ch, zs rate, d64_of_float q) else OneVbr (zs ch, zs rate, d64_of_float q))
+    | [("M" | "IM") as op; ch; rate; mx; nom; mn] ->
+        let rd = (match nominal_eff (zs mx) (zs nom) (zs mn) with
+          | Some ne when int_of_string rate > 0 ->
+              req := round32 (float_of_int (iz ne)); float_of_int (iz ne) /. float_of_int (int_of_string ch)
+          | _ -> 0.0) in
+        apply_b (bump_for rd true) op (if op = "M" then OManaged (zs ch, zs rate, zs mx, zs nom, zs mn, d64_of_float rd)
+                  else OneManaged (zs ch, zs rate, zs mx, zs nom, zs mn, d64_of_float rd))
+    | ["I"] -> apply "I" OInit
+    | ["C2S"; "null"] -> apply "C2S" (OManage2Set (true, zi 0, zi 0, zi 0, zi 0, d64_of_float 0.0, zi 0, d64_of_float 0.0))
+    | ["C2S"; _; act; mnk; avk; mxk; damp; resb; bias] ->
+        apply "C2S" (OManage2Set (false, zs act, zs mnk, zs avk, zs mxk, d64_of_float (f64 damp), zs resb, d64_of_float (f64 bias)))
+    | ["C2G"; a] -> apply "C2G" (OManage2Get (a = "null"))
+    | ["CPL"; v] ->
+        let st = !s in
+        let ch' = if int_of_string v <> 0 then iz st.s_ch else -1 in
+        let rd = if iz st.s_managed <> 0 then !req /. float_of_int ch' else !req in
+        apply_b (bump_for rd (iz st.s_managed <> 0)) "CPL" (OCoupling (zs v, d64_of_float rd))
+    | "CO" :: num :: _ -> apply "CO" (OCtlOther (zs num))
+    | "CN" :: _ -> show "CN" (zi (-131))
+    | "E" :: _ -> ()
+    | _ -> ()) (read_lines file)
+
 let () =
   match Array.to_list Sys.argv with
   | [_; "c14"; f] -> c14 f
+  | [_; "c15"; f] -> c15 f
   | [_; "vf"; f] -> vfmode f
   | [_; "c17"; f] -> c17 f
   | [_; "c11"; f] -> c11 f
